@@ -75,6 +75,9 @@ func runC09(line string) string {
 		}
 		return d
 	}
+	if sc == "stop-hc-probing" {
+		return runStopHcProbing()
+	}
 	if sc == "limit-burst" {
 		return runLimitBurst(argn(2, 2), argn(3, 8))
 	}
@@ -568,6 +571,36 @@ func newSlowConnect() (addr string, release func(), closeAll func()) {
 	return
 }
 
+// runStopHcProbing: a TCP service is stopped while a health-check round is probing a host that does not answer; when
+// Stop has returned, the round's goroutines and probe connections are gone
+func runStopHcProbing() string {
+	addr, _, closeBh := newSlowConnect() // never released: probes hang until the check's timeout
+	defer closeBh()
+	settle(10 * time.Millisecond)
+	base := runtime.NumGoroutine()
+	port := freePort()
+	cfg := tcpConfig(port)
+	cfg.HealthCheck.Interval = 50 * time.Millisecond
+	cfg.HealthCheck.Timeout = 1500 * time.Millisecond
+	p, err := proc.New(fmt.Sprintf("c09h%d", nextProcSeq()), cfg, []*host.Host{host.New(addr)})
+	if err != nil {
+		return "NEW-FAILED:" + err.Error()
+	}
+	p.Start()
+	time.Sleep(400 * time.Millisecond) // a round is in progress
+	ok := within(time.Duration(float64(4*time.Second)*loadFactor), func() { p.Stop() })
+	out := "stop=" + map[bool]string{true: "ok", false: "HUNG"}[ok]
+	leak := 0
+	waitFor(300*time.Millisecond, func() bool {
+		leak = runtime.NumGoroutine() - base
+		return leak <= 0
+	})
+	if leak <= 0 {
+		return out + " goroutines=ok"
+	}
+	return out + fmt.Sprintf(" goroutines=LEAK:+%d", leak)
+}
+
 var c09Burst int
 
 // runLimitBurst: n clients connect at the same moment to a TCP service limited to l connections and stay connected
@@ -656,7 +689,7 @@ func init() {
 				}
 			}
 			lines = append(lines, "redis stop-silent-backend 2", "tcp register-after-stop", "redis stop-halfclosed-silent", "redis drain-while-binding", "tcp drain-while-binding", "tcp drain-during-bind", "tcp stop-during-bind",
-				"redis stop-after-conn-loss 3", "redis stop-after-conn-loss 2", "tcp accept-emfile", "redis accept-emfile", "redis stop-during-connect")
+				"redis stop-after-conn-loss 3", "redis stop-after-conn-loss 2", "tcp accept-emfile", "redis accept-emfile", "redis stop-during-connect", "tcp stop-hc-probing")
 			for i := 0; i < 6; i++ {
 				lines = append(lines, fmt.Sprintf("tcp limit-burst %d %d", 1+r.intn(3), 6+r.intn(20)))
 				lines = append(lines, fmt.Sprintf("tcp register-burst %d %d", 1+r.intn(4), 32+r.intn(64)))
